@@ -315,6 +315,19 @@ def run_case(case, ctx):
         if case.get("charset"):
             kw["charset"] = set(case["charset"])
             ctx.shape["option:charset-set"] += 1
+        # cnf=True hands the rules to Lark's own CYK normal-form conversion.  A second reference reads the rules THAT
+        # conversion returned (L.rules): a derivable string that these rules no longer derive was lost inside Lark
+        # (known finding F19), not in the library's construction on top of them.
+        Ocnf = None
+        if case.get("cnf"):
+            import copy
+
+            Ocnf = copy.copy(O)
+            Ocnf.R = [(r.lhs.name, [(y.name, bool(y.is_term)) for y in r.rhs]) for r in L.rules]
+
+        def lost_by_lark(text_s):
+            return Ocnf is not None and not Ocnf.accepts(text_s)
+
         for rec in ("right", "left"):
             c1 = dict(case, recursion=rec)
             ok, G = ctx.call(APIS[0], c1, L.char_cfg, recursion=rec, **kw)
@@ -325,6 +338,8 @@ def run_case(case, ctx):
                     if ok:
                         have = v > 0
                         mech = "char_cfg/" + ("accepts-underivable-string" if have and not want[s] else "rejects-derivable-string")
+                        if want[s] and not have and lost_by_lark(s):
+                            mech = "char_cfg(cnf=True)/string-lost-by-lark-cyk-conversion"
                         ctx.check(APIS[0], have == want[s], mech, dict(c1, s=s), {"s": s, "weight": v, "reference_accepts": want[s]})
             ok, B = ctx.call(APIS[1], c1, L.byte_cfg, recursion=rec, **kw)
             if ok:
@@ -375,6 +390,12 @@ def run_case(case, ctx):
                     if ok:
                         have = v > 0
                         mech = "byte_cfg/" + ("accepts-non-encoding" if have and not w else "rejects-encoding-of-derivable-string")
+                        if w and not have and Ocnf is not None:
+                            try:
+                                if lost_by_lark(bytes(bs).decode("utf-8")):
+                                    mech = "byte_cfg(cnf=True)/string-lost-by-lark-cyk-conversion"
+                            except UnicodeDecodeError:
+                                pass
                         ctx.check(APIS[1], have == w, mech, dict(c1, bs=bs), {"bytes": list(bs), "weight": v, "reference_accepts": w})
 
 
